@@ -292,6 +292,7 @@ func markStmtRoots(
 			if sk.Result != nil {
 				mark(*sk.Result)
 			}
+			markAtomicCompare(sk.Fun, mark)
 			return
 		}
 		mark(sk.Pointer)
@@ -299,6 +300,7 @@ func markStmtRoots(
 		if sk.Result != nil {
 			mark(*sk.Result)
 		}
+		markAtomicCompare(sk.Fun, mark)
 
 	case ir.StmtBarrier:
 		// Execution barrier — always live (side effect).
@@ -344,6 +346,21 @@ func markStmtRoots(
 	case ir.StmtSubgroupGather:
 		mark(sk.Argument)
 		mark(sk.Result)
+		// The lane selector (index / delta / mask) is an operand too.
+		switch m := sk.Mode.(type) {
+		case ir.GatherBroadcast:
+			mark(m.Index)
+		case ir.GatherShuffle:
+			mark(m.Index)
+		case ir.GatherShuffleDown:
+			mark(m.Delta)
+		case ir.GatherShuffleUp:
+			mark(m.Delta)
+		case ir.GatherShuffleXor:
+			mark(m.Mask)
+		case ir.GatherQuadBroadcast:
+			mark(m.Index)
+		}
 
 	// Control flow — recurse into sub-blocks and mark conditions.
 	// Conditions are marked unconditionally here to ensure local
@@ -1070,5 +1087,13 @@ func visitSampleLevelHandles(level ir.SampleLevel, f func(ir.ExpressionHandle)) 
 	case ir.SampleLevelGradient:
 		f(l.X)
 		f(l.Y)
+	}
+}
+
+// markAtomicCompare marks the comparand of an atomicCompareExchangeWeak, the one
+// atomic function that carries an expression operand of its own.
+func markAtomicCompare(fun ir.AtomicFunction, mark func(ir.ExpressionHandle)) {
+	if x, ok := fun.(ir.AtomicExchange); ok && x.Compare != nil {
+		mark(*x.Compare)
 	}
 }
